@@ -46,6 +46,7 @@ type Ptr struct {
 	Idx   *Term
 	Elem  types.Type // pointee type
 	Name  string     // global name
+	Glob  interface{} // *ssa.Global for PGlobal
 }
 
 type State map[string]*Term
